@@ -45,7 +45,7 @@ PAGE_LINKS = ['!' + p for p in NETWORK + WE_LINKS + PAGELINK_PAGING + MOST_LINKE
 MONO = ['R-MONOTONE-CALLERS', 'R-MONOTONE-POINTERS']
 WE_FILTERS = ['Traph.get_webentity_pagelinks_iter', 'Traph.paginate_webentity_pagelinks']
 
-prop('C01', ['R-FRESH', 'R-DIRTY-WRITTEN'] + MONO + ['R-CRAWLED', 'R-PAGE-REPORT', 'R-READONLY', 'R-BST-AGREE', 'R-READ-RESETS', 'R-ARGS-HONOURED'],
+prop('C01', ['R-FRESH', 'R-DIRTY-WRITTEN'] + MONO + ['R-CRAWLED', 'R-PAGE-REPORT', 'R-READONLY', 'R-BST-AGREE', 'R-READ-RESETS', 'R-ARGS-HONOURED', 'R-ENUM-FILTERS', 'R-LRU-ASSEMBLY'],
      'Typestate dataflow on per-function CFGs over the typed call graph: (R-FRESH) no trie-node copy is written back, or '
      'handed to a callee that writes it, after a call that may rewrite trie blocks or a yield without an intervening '
      'refresh/read; (R-DIRTY-WRITTEN) every mutated node reaches write() before rebind/reload/return; (R-MONOTONE) page and '
@@ -57,7 +57,7 @@ prop('C01', ['R-FRESH', 'R-DIRTY-WRITTEN'] + MONO + ['R-CRAWLED', 'R-PAGE-REPORT
      'reports count only newly flagged pages, queries cannot add pages',
      'that the enumerated page set equals the submitted set for every insertion order (value statement)')
 
-prop('C02', ['R-BST-AGREE', 'R-PARENT-PAIR', 'R-GEOMETRY', 'R-TAIL-PROTOCOL', 'R-READ-RESETS', 'R-CHUNK-LAST', 'R-ACCESSOR-TABLE', 'R-STORAGE-IFACE'] + MONO,
+prop('C02', ['R-BST-AGREE', 'R-PARENT-PAIR', 'R-GEOMETRY', 'R-TAIL-PROTOCOL', 'R-READ-RESETS', 'R-CHUNK-LAST', 'R-ACCESSOR-TABLE', 'R-STORAGE-IFACE', 'R-LRU-ASSEMBLY', 'R-STORAGE-SEM'] + MONO,
      'Decision tables (abstract path execution) of the three sibling-search loops and of the insert attach code against the '
      'strict stem order; parent/link pairing at the two allocation sites; constant folding of the struct formats and derived '
      'constants; accessor/field tables computed from the node classes; writer/reader agreement of the tail protocol; '
@@ -67,7 +67,7 @@ prop('C02', ['R-BST-AGREE', 'R-PARENT-PAIR', 'R-GEOMETRY', 'R-TAIL-PROTOCOL', 'R
      'positions), multi-block reads are possible on every back-end, pointers are append-only',
      'byte identity of reconstructed LRUs and the BST invariant on reachable files as value statements')
 
-prop('C03', ['R-LINK-PAIR', 'R-HEAD-REPOINT', 'R-DIRECTION', 'R-ACCESSOR-TABLE', ('R-FILTER-AGREE', ['Traph.get_page_links']), 'R-FRESH',
+prop('C03', ['R-LINK-PAIR', 'R-HEAD-REPOINT', 'R-DIRECTION', 'R-ACCESSOR-TABLE', ('R-FILTER-AGREE', ['Traph.get_page_links']), 'R-LINK-WALK', 'R-FRESH',
              ('R-NULL-HEAD', PAGE_LINKS)],
      'Path counting over the loops that record a link batch (each pair once outbound, once inbound on every path), guard-fact '
      'obligations of LinkStore.add_links (prepend, repoint after write), forwarding of the direction switch at every call '
@@ -77,14 +77,14 @@ prop('C03', ['R-LINK-PAIR', 'R-HEAD-REPOINT', 'R-DIRECTION', 'R-ACCESSOR-TABLE',
      'never cross, a self-link is reported once as internal, no NULL head is dereferenced in page-level queries',
      'equality of reported weights with submission counts')
 
-prop('C04', ['R-TRACK-AGREE', 'R-BST-AGREE', 'R-WE-ATTACH', 'R-OWN-ERROR', 'R-DIRTY-WRITTEN', 'R-ARGS-HONOURED', 'R-NO-STALE-CACHE', 'R-READ-RESETS'],
+prop('C04', ['R-TRACK-AGREE', 'R-BST-AGREE', 'R-WE-ATTACH', 'R-OWN-ERROR', 'R-DIRTY-WRITTEN', 'R-ARGS-HONOURED', 'R-NO-STALE-CACHE', 'R-READ-RESETS', 'R-PREFIX-EDIT'],
      'Decision tables of the per-stem tracking code of add_lru and follow_lru (sibling agreement), origin/guard dataflow of '
      'every set_webentity site, guard-fact tables of the resolution requests, mutate-then-write pairing of every prefix edit.',
      'deepest webentity on the walk wins identically on the insert and the query walk, attaching an attached prefix is refused, '
      'resolution fails with TraphException iff the walk saw no webentity, every edit is persisted',
      'the net effect of an arbitrary edit history as seen by the walk (value statement over histories)')
 
-prop('C05', ['R-RELEVANCE', 'R-STACK-BLOCKS', 'R-EVERY-PREFIX', 'R-NO-STALE-CACHE', 'R-READ-RESETS'],
+prop('C05', ['R-RELEVANCE', 'R-STACK-BLOCKS', 'R-EVERY-PREFIX', 'R-NO-STALE-CACHE', 'R-READ-RESETS', 'R-ENUM-FILTERS', 'R-LRU-ASSEMBLY'],
      'Decision tables of the loop bodies of webentity_dfs_iter and of the recursive in-order traversal against the relevance '
      'specification; structure of the traversal stacks.',
      'the bounded walk stops exactly at nodes owned by a webentity other than the start, continues through their siblings, and '
@@ -99,35 +99,35 @@ prop('C06', ['R-LADDER-AGREE', 'R-TRACK-AGREE', 'R-ID', 'R-RULE-INSTALL', 'R-WE-
      'always expanded; one id per creation; installing a rule flags, writes and re-inserts every page below the anchor',
      'what the regular expressions match')
 
-prop('C07', ['R-PROPAGATE', ('R-FILTER-AGREE', NETWORK), ('R-MEMO-KEY', NETWORK), 'R-LINK-PAIR', 'R-DIRECTION', ('R-NULL-HEAD', NETWORK), 'R-NO-STALE-CACHE'],
+prop('C07', ['R-PROPAGATE', ('R-FILTER-AGREE', NETWORK), ('R-MEMO-KEY', NETWORK), 'R-LINK-PAIR', 'R-LINK-WALK', 'R-DIRECTION', ('R-NULL-HEAD', NETWORK), 'R-NO-STALE-CACHE'],
      'Decision table of dfs_with_webentity_iter (nearest webentity carried down), decision tables of the fast and slow network '
      'filters against one specification, direction forwarding, NULL-head guards.',
      'nearest webentity is propagated correctly, fast and slow variants drop/keep the same links, inbound is the same code '
      'with the other head, page tallies only under is_page and a source webentity',
      'weight sums and transpose equality as values')
 
-prop('C08', [('R-NULL-HEAD', WE_LINKS), ('R-FILTER-AGREE', WE_FILTERS), ('R-MEMO-KEY', ['!Traph.get_webentities_*']), 'R-NO-STALE-CACHE', 'R-EVERY-PREFIX', 'R-RELEVANCE', 'R-DISTINCT-DEGREE', 'R-DIRECTION'],
+prop('C08', [('R-NULL-HEAD', WE_LINKS), ('R-FILTER-AGREE', WE_FILTERS), ('R-MEMO-KEY', ['!Traph.get_webentities_*']), 'R-NO-STALE-CACHE', 'R-EVERY-PREFIX', 'R-RELEVANCE', 'R-DISTINCT-DEGREE', 'R-DIRECTION', 'R-LINK-WALK', 'R-LRU-ASSEMBLY'],
      'NULL-head guards, decision tables of the per-webentity link filters, relevance tables of the bounded walk, '
      'de-duplicating iterators in degree counters, direction forwarding.',
      'no NULL head dereferenced (block 0 parses as a stub and fabricates a link), links kept iff (outbound and other webentity) '
      'or (internal and same webentity), inbound iff source webentity differs, degrees count distinct pages',
      'exactness of the returned sets')
 
-prop('C09', [('R-TOKEN-PAIR', ['Traph.paginate_webentity_pages']), 'R-TOKEN-CODEC', 'R-ORDER', 'R-RELEVANCE', 'R-EVERY-PREFIX'] + MONO,
+prop('C09', [('R-TOKEN-PAIR', ['Traph.paginate_webentity_pages']), 'R-TOKEN-CODEC', 'R-ORDER', 'R-RELEVANCE', 'R-EVERY-PREFIX', ('R-PAGINATE', ['Traph.paginate_webentity_pages'])] + MONO,
      'Pairing of the two token halves, writer/reader digit tables and radix constants of the path codec, emission order and '
      'strict resume filter of the in-order walk, relevance tables, append-only pointers.',
      'the two halves of a token describe the same node, path digits and radices agree between writer and reader, ascending '
      'in-order emission with strict resume, same page set as the unpaginated query, nodes never move so a path stays valid',
      'the k+1 look-ahead arithmetic and completeness at every cut')
 
-prop('C10', [('R-TOKEN-PAIR', PAGELINK_PAGING), ('R-FILTER-AGREE', WE_FILTERS), ('R-MEMO-KEY', WE_FILTERS), ('R-NULL-HEAD', PAGELINK_PAGING), 'R-TOKEN-CODEC', 'R-ORDER', 'R-EVERY-PREFIX'],
+prop('C10', [('R-TOKEN-PAIR', PAGELINK_PAGING), ('R-FILTER-AGREE', WE_FILTERS), ('R-MEMO-KEY', WE_FILTERS), ('R-NULL-HEAD', PAGELINK_PAGING), 'R-TOKEN-CODEC', 'R-ORDER', 'R-EVERY-PREFIX', ('R-PAGINATE', PAGELINK_PAGING)],
      'Pairing of the two token halves in the pagelink pagination loop, agreement of its link filter with the unpaginated '
      'query, NULL-head guard, token codec.',
      'token halves advance together (also on link-less pages), same links as the unpaginated query for the same switches, no '
      'NULL head dereferenced',
      'counts per answer')
 
-prop('C11', ['R-OPEN-TABLE', 'R-CLEAR-AGREE', 'R-GEOMETRY', 'R-ID', 'R-DIRTY-WRITTEN'],
+prop('C11', ['R-OPEN-TABLE', 'R-CLEAR-AGREE', 'R-GEOMETRY', 'R-ID', 'R-DIRTY-WRITTEN', 'R-STORAGE-SEM'],
      'Decision table of Traph.__init__ (which files are opened how, when refused) and of Traph.clear; block geometry (every '
      'write is one packed block); header reload obligations; mutate-then-write pairing.',
      'reopen never truncates, create only when asked or when nothing exists, a single file or a partial block is refused, '
@@ -142,7 +142,7 @@ prop('C12', ['R-ID', 'R-DIRTY-WRITTEN', 'R-STORAGE-IFACE'],
      'request shared by all attached prefixes, header preserved on reopen and rebuilt on clear',
      '32-bit overflow of the counter')
 
-prop('C13', ['R-WE-ATTACH', 'R-ANCESTOR-FLAG', 'R-SKIP-CHILDLESS', 'R-FRESH'] + MONO,
+prop('C13', ['R-WE-ATTACH', 'R-ANCESTOR-FLAG', 'R-SKIP-CHILDLESS', 'R-HIERARCHY', 'R-FRESH'] + MONO,
      'Origin dataflow of every node that receives a webentity id; decision tables of both loops of add_lru (ancestor '
      'unmarking) with a linear-integer domain for `i < l - 1`; decision table of dfs_iter (shortcut prunes children only); '
      'who-may-call on the mark setters.',
@@ -157,7 +157,7 @@ prop('C14', ['R-READONLY', 'R-WRITE-API'],
      'no path from any query entry point to a mutation of either store (complete for the statement modulo A1-A2)',
      'nothing beyond A1-A2')
 
-prop('C15', ['R-STORAGE-IFACE', 'R-OPEN-TABLE', 'R-CLEAR-AGREE', 'R-READ-RESETS'],
+prop('C15', ['R-STORAGE-IFACE', 'R-STORAGE-SEM', 'R-OPEN-TABLE', 'R-CLEAR-AGREE', 'R-READ-RESETS'],
      'Signature conformance of every storage call site against every back-end class the typed receiver can be (protocol '
      'sites), back-end/guard correlation for facade sites, return conventions and cursor protocol of read(); decision table '
      'of the constructor (the in-memory branch is a fresh index).',
@@ -186,13 +186,13 @@ prop('C18', ['R-OPEN-TABLE', 'R-POINTEE-FIRST', 'R-GEOMETRY', 'R-NONE-CHECK', 'R
      'writes are whole blocks, a block a cut may have removed is never unpacked unchecked',
      'the behaviour at every cut of every history (crash points are not a syntactic object)')
 
-prop('C19', ['R-CHUNK-LAST', 'R-ALLOC', 'R-GEOMETRY', 'R-HEAD-REPOINT', 'R-LINK-PAIR', 'R-READ-RESETS', 'R-BST-AGREE'],
+prop('C19', ['R-CHUNK-LAST', 'R-ALLOC', 'R-GEOMETRY', 'R-HEAD-REPOINT', 'R-LINK-PAIR', 'R-LINK-WALK', 'R-READ-RESETS', 'R-BST-AGREE', 'R-STORAGE-SEM'],
      'Reachability after the terminal chunk yield; who-may-allocate and decision tables of the insert path (found stems '
      'allocate and write nothing); block geometry; one stub per batch element.',
      'no block after the terminal chunk, allocation only on missing stems, re-adding takes the no-write path, one stub per link end',
      'the closed-form block count')
 
-prop('C20', [('R-NULL-HEAD', MOST_LINKED), 'R-DISTINCT-DEGREE', 'R-TOPK', 'R-RELEVANCE', 'R-EVERY-PREFIX'],
+prop('C20', [('R-NULL-HEAD', MOST_LINKED), 'R-DISTINCT-DEGREE', 'R-TOPK', 'R-RELEVANCE', 'R-EVERY-PREFIX', 'R-LINK-WALK'],
      'NULL-head guard and de-duplicating iterator of the indegree counter; heap key/trim/drain obligations; depth atom of the '
      'bounded walk.',
      'a page without inbound list contributes 0 and not the header block parsed as one stub; indegree counts distinct sources; '
